@@ -33,6 +33,9 @@ pub assume_specification<T>[ <[T]>::as_ptr ](s: &[T]) -> (r: *const T);
 //@|        if s.len() < 1 { PR::Short } else { PR::Val(u8_of(s.take(1)) != 0, 1) }
 //@|    }
 //@|    open spec fn eps_rel<'a>(d: Self, v: Self) -> bool { d == v }
+//@|    proof fn lemma_prefix(s: Seq<u8>, pos: nat, k: nat) {
+//@|        if k >= 1 { assert(s.take(k as int).take(1) =~= s.take(1)); }
+//@|    }
 //@  sub <<fn _deserialize_full_inner(backend: &mut impl ReadWithPos) -> deser::Result<bool> {>>
 //@  impl_arg
 //@  ret r
@@ -46,6 +49,7 @@ pub assume_specification<T>[ <[T]>::as_ptr ](s: &[T]) -> (r: *const T);
 //@  body_prefix
 //@|    open spec fn parse(s: Seq<u8>, pos: nat) -> PR<Self> { PR::Val((), 0) }
 //@|    open spec fn eps_rel<'a>(d: Self, v: Self) -> bool { true }
+//@|    proof fn lemma_prefix(s: Seq<u8>, pos: nat, k: nat) {}
 //@  sub <<fn _deserialize_full_inner(_backend: &mut impl ReadWithPos) -> deser::Result<Self> {>>
 //@  impl_arg
 //@  ret r
@@ -59,6 +63,7 @@ pub assume_specification<T>[ <[T]>::as_ptr ](s: &[T]) -> (r: *const T);
 //@  body_prefix
 //@|    open spec fn parse(s: Seq<u8>, pos: nat) -> PR<Self> { PR::Val(core::marker::PhantomData, 0) }
 //@|    open spec fn eps_rel<'a>(d: Self, v: Self) -> bool { true }
+//@|    proof fn lemma_prefix(s: Seq<u8>, pos: nat, k: nat) {}
 //@  sub <<fn _deserialize_full_inner(_backend: &mut impl ReadWithPos) -> deser::Result<Self> {>>
 //@  impl_arg
 //@  ret r
@@ -73,6 +78,17 @@ pub open spec fn parse_payload<T: DeserializeInner, S>(s: Seq<u8>, pos: nat, wra
         PR::BadTag(t) => PR::BadTag(t),
         PR::Short => PR::Short,
     }
+}
+
+/// prefix behaviour of "one tag byte then a payload"
+proof fn lemma_payload_prefix<T: DeserializeInner, S>(s: Seq<u8>, pos: nat, k: nat, wrap: spec_fn(T) -> S)
+    requires s.len() >= 1, parse_payload::<T, S>(s, pos, wrap) is Val, 1 <= k <= s.len(),
+    ensures parse_payload::<T, S>(s, pos, wrap)->Val_1 <= s.len(),
+        k < parse_payload::<T, S>(s, pos, wrap)->Val_1 ==> parse_payload::<T, S>(s.take(k as int), pos, wrap) is Short,
+        k >= parse_payload::<T, S>(s, pos, wrap)->Val_1 ==> parse_payload::<T, S>(s.take(k as int), pos, wrap) == parse_payload::<T, S>(s, pos, wrap),
+{
+    T::lemma_prefix(s.skip(1), pos + 1, (k - 1) as nat);
+    assert(s.take(k as int).skip(1) =~= s.skip(1).take(k - 1));
 }
 
 //@item epserde/src/impls/prim.rs props=C01,C02,C11,C15 name=Option::DeserializeInner <<impl<T: DeserializeInner> DeserializeInner for Option<T> {>>
@@ -92,6 +108,11 @@ pub open spec fn parse_payload<T: DeserializeInner, S>(s: Seq<u8>, pos: nat, wra
 //@|            (Some(a), Some(b)) => T::eps_rel(a, b),
 //@|            _ => false,
 //@|        }
+//@|    }
+//@|    proof fn lemma_prefix(s: Seq<u8>, pos: nat, k: nat) {
+//@|        let kk = if k >= 1 { k } else { 1 };
+//@|        if k >= 1 { assert(s.take(k as int)[0] == s[0]); }
+//@|        if s[0] == 1 { lemma_payload_prefix::<T, Self>(s, pos, kk, |v: T| Some(v)); }
 //@|    }
 //@  sub <<fn _deserialize_full_inner(backend: &mut impl ReadWithPos) -> deser::Result<Self> {>>
 //@  impl_arg
@@ -124,6 +145,12 @@ pub open spec fn parse_payload<T: DeserializeInner, S>(s: Seq<u8>, pos: nat, wra
 //@|            _ => false,
 //@|        }
 //@|    }
+//@|    proof fn lemma_prefix(s: Seq<u8>, pos: nat, k: nat) {
+//@|        let kk = if k >= 1 { k } else { 1 };
+//@|        if k >= 1 { assert(s.take(k as int)[0] == s[0]); }
+//@|        if s[0] == 1 { lemma_payload_prefix::<T, Self>(s, pos, kk, |v: T| core::ops::Bound::Included(v)); }
+//@|        if s[0] == 2 { lemma_payload_prefix::<T, Self>(s, pos, kk, |v: T| core::ops::Bound::Excluded(v)); }
+//@|    }
 //@  sub <<fn _deserialize_full_inner(backend: &mut impl ReadWithPos) -> deser::Result<Self> {>>
 //@  impl_arg
 //@  ret r
@@ -148,6 +175,12 @@ pub open spec fn parse_payload<T: DeserializeInner, S>(s: Seq<u8>, pos: nat, wra
 //@|            (core::ops::ControlFlow::Continue(a), core::ops::ControlFlow::Continue(b)) => C::eps_rel(a, b),
 //@|            _ => false,
 //@|        }
+//@|    }
+//@|    proof fn lemma_prefix(s: Seq<u8>, pos: nat, k: nat) {
+//@|        let kk = if k >= 1 { k } else { 1 };
+//@|        if k >= 1 { assert(s.take(k as int)[0] == s[0]); }
+//@|        if s[0] == 0 { lemma_payload_prefix::<B, Self>(s, pos, kk, |v: B| core::ops::ControlFlow::Break(v)); }
+//@|        if s[0] == 1 { lemma_payload_prefix::<C, Self>(s, pos, kk, |v: C| core::ops::ControlFlow::Continue(v)); }
 //@|    }
 //@  sub <<fn _deserialize_full_inner(backend: &mut impl ReadWithPos) -> deser::Result<Self> {>>
 //@  impl_arg
@@ -200,6 +233,28 @@ pub open spec fn parse_one<A: DeserializeInner, S>(s: Seq<u8>, pos: nat, mk: spe
     }
 }
 
+proof fn lemma_pair_prefix<A: DeserializeInner, B: DeserializeInner, S>(s: Seq<u8>, pos: nat, k: nat, mk: spec_fn(A, B) -> S)
+    requires parse_pair::<A, B, S>(s, pos, mk) is Val, k <= s.len(),
+    ensures parse_pair::<A, B, S>(s, pos, mk)->Val_1 <= s.len(),
+        k < parse_pair::<A, B, S>(s, pos, mk)->Val_1 ==> parse_pair::<A, B, S>(s.take(k as int), pos, mk) is Short,
+        k >= parse_pair::<A, B, S>(s, pos, mk)->Val_1 ==> parse_pair::<A, B, S>(s.take(k as int), pos, mk) == parse_pair::<A, B, S>(s, pos, mk),
+{
+    A::lemma_prefix(s, pos, k);
+    let n = A::parse(s, pos)->Val_1;
+    B::lemma_prefix(s.skip(n as int), pos + n, if k >= n { (k - n) as nat } else { 0 });
+    if k >= n {
+        assert(s.take(k as int).skip(n as int) =~= s.skip(n as int).take(k - n));
+    }
+}
+proof fn lemma_one_prefix<A: DeserializeInner, S>(s: Seq<u8>, pos: nat, k: nat, mk: spec_fn(A) -> S)
+    requires parse_one::<A, S>(s, pos, mk) is Val, k <= s.len(),
+    ensures parse_one::<A, S>(s, pos, mk)->Val_1 <= s.len(),
+        k < parse_one::<A, S>(s, pos, mk)->Val_1 ==> parse_one::<A, S>(s.take(k as int), pos, mk) is Short,
+        k >= parse_one::<A, S>(s, pos, mk)->Val_1 ==> parse_one::<A, S>(s.take(k as int), pos, mk) == parse_one::<A, S>(s, pos, mk),
+{
+    A::lemma_prefix(s, pos, k);
+}
+
 //@item epserde/src/impls/stdlib.rs props=C01,C02,C11 name=Range::DeserializeInner <<impl<Idx: ZeroCopy + DeserializeInner> DeserializeInner for core::ops::Range<Idx> {>>
 //@  replace <<deser::Result>> <<Result>>
 //@  body_prefix
@@ -209,6 +264,9 @@ pub open spec fn parse_one<A: DeserializeInner, S>(s: Seq<u8>, pos: nat, mk: spe
 //@|    }
 //@|    open spec fn eps_rel<'a>(d: core::ops::Range<<Idx as DeserializeInner>::DeserType<'a>>, v: Self) -> bool {
 //@|        Idx::eps_rel(d.start, v.start) && Idx::eps_rel(d.end, v.end)
+//@|    }
+//@|    proof fn lemma_prefix(s: Seq<u8>, pos: nat, k: nat) {
+//@|        lemma_pair_prefix::<Idx, Idx, Self>(s, pos, k, |a: Idx, b: Idx| core::ops::Range { start: a, end: b });
 //@|    }
 //@  sub <<fn _deserialize_full_inner(backend: &mut impl ReadWithPos) -> deser::Result<Self> {>>
 //@  impl_arg
@@ -227,6 +285,9 @@ pub open spec fn parse_one<A: DeserializeInner, S>(s: Seq<u8>, pos: nat, mk: spe
 //@|    open spec fn eps_rel<'a>(d: core::ops::RangeFrom<<Idx as DeserializeInner>::DeserType<'a>>, v: Self) -> bool {
 //@|        Idx::eps_rel(d.start, v.start)
 //@|    }
+//@|    proof fn lemma_prefix(s: Seq<u8>, pos: nat, k: nat) {
+//@|        lemma_one_prefix::<Idx, Self>(s, pos, k, |a: Idx| core::ops::RangeFrom { start: a });
+//@|    }
 //@  sub <<fn _deserialize_full_inner(backend: &mut impl ReadWithPos) -> deser::Result<Self> {>>
 //@  impl_arg
 //@  ret r
@@ -242,6 +303,9 @@ pub open spec fn parse_one<A: DeserializeInner, S>(s: Seq<u8>, pos: nat, mk: spe
 //@|    }
 //@|    open spec fn eps_rel<'a>(d: core::ops::RangeTo<<Idx as DeserializeInner>::DeserType<'a>>, v: Self) -> bool {
 //@|        Idx::eps_rel(d.end, v.end)
+//@|    }
+//@|    proof fn lemma_prefix(s: Seq<u8>, pos: nat, k: nat) {
+//@|        lemma_one_prefix::<Idx, Self>(s, pos, k, |a: Idx| core::ops::RangeTo { end: a });
 //@|    }
 //@  sub <<fn _deserialize_full_inner(backend: &mut impl ReadWithPos) -> deser::Result<Self> {>>
 //@  impl_arg
@@ -259,6 +323,9 @@ pub open spec fn parse_one<A: DeserializeInner, S>(s: Seq<u8>, pos: nat, mk: spe
 //@|    open spec fn eps_rel<'a>(d: core::ops::RangeToInclusive<<Idx as DeserializeInner>::DeserType<'a>>, v: Self) -> bool {
 //@|        Idx::eps_rel(d.end, v.end)
 //@|    }
+//@|    proof fn lemma_prefix(s: Seq<u8>, pos: nat, k: nat) {
+//@|        lemma_one_prefix::<Idx, Self>(s, pos, k, |a: Idx| core::ops::RangeToInclusive { end: a });
+//@|    }
 //@  sub <<fn _deserialize_full_inner(backend: &mut impl ReadWithPos) -> deser::Result<Self> {>>
 //@  impl_arg
 //@  ret r
@@ -271,6 +338,7 @@ pub open spec fn parse_one<A: DeserializeInner, S>(s: Seq<u8>, pos: nat, mk: spe
 //@  body_prefix
 //@|    open spec fn parse(s: Seq<u8>, pos: nat) -> PR<Self> { PR::Val(core::ops::RangeFull, 0) }
 //@|    open spec fn eps_rel<'a>(d: Self, v: Self) -> bool { true }
+//@|    proof fn lemma_prefix(s: Seq<u8>, pos: nat, k: nat) {}
 //@  sub <<fn _deserialize_full_inner(_backend: &mut impl ReadWithPos) -> deser::Result<Self> {>>
 //@  impl_arg
 //@  ret r
@@ -341,6 +409,42 @@ proof fn lemma_items_len<T: DeserializeInner>(s: Seq<u8>, pos: nat, k: nat)
 {
     if k > 0 {
         lemma_items_len::<T>(s, pos, (k - 1) as nat);
+    }
+}
+
+/// C11 for deep sequences of any length: a successful parse of `cnt` items lies
+/// within the input, strict prefixes are Short, longer prefixes parse the same
+proof fn lemma_items_prefix<T: DeserializeInner>(s: Seq<u8>, pos: nat, cnt: nat, k: nat)
+    requires parse_items::<T>(s, pos, cnt) is Val, k <= s.len(),
+    ensures parse_items::<T>(s, pos, cnt)->Val_1 <= s.len(),
+        k < parse_items::<T>(s, pos, cnt)->Val_1 ==> parse_items::<T>(s.take(k as int), pos, cnt) is Short,
+        k >= parse_items::<T>(s, pos, cnt)->Val_1 ==> parse_items::<T>(s.take(k as int), pos, cnt) == parse_items::<T>(s, pos, cnt),
+    decreases cnt
+{
+    if cnt > 0 {
+        let c1 = (cnt - 1) as nat;
+        lemma_items_prefix::<T>(s, pos, c1, k);
+        let n1 = parse_items::<T>(s, pos, c1)->Val_1;
+        let s1 = s.skip(n1 as int);
+        T::lemma_prefix(s1, pos + n1, if k >= n1 { (k - n1) as nat } else { 0 });
+        if k >= n1 {
+            assert(s.take(k as int).skip(n1 as int) =~= s1.take(k - n1));
+        }
+    }
+}
+
+proof fn lemma_seq_deep_prefix<T: DeserializeInner>(s: Seq<u8>, pos: nat, k: nat)
+    requires parse_seq_deep::<T>(s, pos) is Val, k <= s.len(),
+    ensures parse_seq_deep::<T>(s, pos)->Val_1 <= s.len(),
+        k < parse_seq_deep::<T>(s, pos)->Val_1 ==> parse_seq_deep::<T>(s.take(k as int), pos) is Short,
+        k >= parse_seq_deep::<T>(s, pos)->Val_1 ==> parse_seq_deep::<T>(s.take(k as int), pos) == parse_seq_deep::<T>(s, pos),
+{
+    usize::lemma_prefix(s, pos, k);
+    let len = usize::parse(s, pos)->Val_0;
+    let s1 = s.skip(8);
+    lemma_items_prefix::<T>(s1, pos + 8, len as nat, if k >= 8 { (k - 8) as nat } else { 0 });
+    if k >= 8 {
+        assert(s.take(k as int).skip(8) =~= s1.take(k - 8));
     }
 }
 
